@@ -18,16 +18,21 @@ RICH = dict(sleeps=(0, 1.0, 2.0), moa=(0, 0.53, 1.57, 2.59), timeout=(0, 0.53, 1
 SLIM5 = dict(sleeps=(1.0, 2.0), yields=("yield",), moa=(0.53,), timeout=(), scope=(INF,), resched=(), ks=(0, 1))
 SHIELD5 = dict(sleeps=(1.0,), yields=("syield",), moa=(0,), timeout=(), scope=(INF,), resched=(), ks=(0, 1))
 SLIM6 = dict(sleeps=(1.0,), yields=("yield",), moa=(0.53,), timeout=(), scope=(INF,), resched=(), ks=(0,))
-# tier -> families (name, alphabet, min nodes, max nodes, alphabet whose programs were already enumerated by an earlier family)
+# catch{P} = cleanup code swallowing a CancelledError: only programs that contain one (the others are in the families above)
+CATCH = dict(sleeps=(1.0,), yields=("yield",), moa=(0, 0.53), timeout=(), scope=(INF,), resched=(), ks=(0, 1), catch=True, group=False)
+# tier -> families (name, alphabet, min nodes, max nodes, alphabet whose programs were already enumerated by an earlier family,
+#                   statement every program of the family must contain)
 TIERS = {
-    "quick": [("base", BASE, 1, 4, None), ("rich", RICH, 1, 3, BASE), ("slim5", SLIM5, 5, 5, None), ("shield5", SHIELD5, 5, 5, None)],
-    "thorough": [("base", BASE, 1, 5, None), ("rich", RICH, 1, 4, BASE), ("slim6", SLIM6, 6, 6, None)],
+    "quick": [("base", BASE, 1, 4, None, None), ("rich", RICH, 1, 3, BASE, None), ("slim5", SLIM5, 5, 5, None, None), ("shield5", SHIELD5, 5, 5, None, None),
+              ("catch", CATCH, 1, 4, None, "catch")],
+    "thorough": [("base", BASE, 1, 5, None, None), ("rich", RICH, 1, 4, BASE, None), ("slim6", SLIM6, 6, 6, None, None),
+                 ("catch", CATCH, 1, 5, None, "catch")],
 }
 NPARTS = {"quick": 96, "thorough": 192}
 
 RULE = (
     "ALL programs of the grammar sleep(d) | yield_ | shielded_yield | move_on_after(D){P} | timeout(D){P} | scope(deadline){P} | "
-    "cancel(k) | reschedule(k, now+D) | shield{P} | group{P || P} with at most N nodes (see tier_bounds) and container nesting <= 3, "
+    "cancel(k) | reschedule(k, now+D) | shield{P} | group{P || P} | catch{P} (= try: P / except CancelledError: pass, no uncancel()) with at most N nodes (see tier_bounds) and container nesting <= 3, "
     "enumerated deterministically (no sampling), x external task.cancel() in {none} + {midpoint between every two consecutive "
     "instants of the reference trace (timed event)} + {EVERY loop-iteration index of the cancel-free run from the program's first step "
     "to its end (untimed event applied inside select(); the index before the first step only for programs of <= 2 nodes)}. Reductions: (1) 'mark' is not enumerated because the interpreter records the completion of every "
@@ -41,8 +46,14 @@ RULE = (
     "task falls within 10 ms of another cancellation cause of the same task, are same-instant races: they are executed and checked with the "
     "order-independent clauses only (race_clause_only). Where the statement allows two behaviours (an inner cancelled scope inside a cancelled "
     "enclosing scope may catch or propagate) every resolution is an accepted reference trace (latitude_catch_or_propagate). "
+    "Programs containing catch{} (own family: every program of its alphabet and size that contains at least one catch) are run WITHOUT any "
+    "external cancel - what a program that swallows a foreign task.cancel() must do next is not specified - and judged by the full trace (level-triggered: "
+    "after the catch the next unshielded checkpoint inside a still cancelled scope raises again) plus the invariants (no timed unshielded sleep completes "
+    "inside a scope cancelled >= 10 ms earlier, cancelling() bookkeeping at scope exits, registries/handles); counters catch_programs / "
+    "catch_runs_with_swallowed_cancellation. "
     "distinct_nontrivial = distinct (program shape = nesting of the scope/shield/group statements + set of leaf statements used, injection kind, "
-    "where the cancel landed, task outcome, (cancel_called, cancelled_caught) of every scope in exit order) among runs in which an external cancel was actually delivered"
+    "where the cancel landed, task outcome, (cancel_called, cancelled_caught) of every scope in exit order) among runs in which an external cancel was actually delivered, "
+    "plus distinct (shape, outcome, scope flags, number of swallowed cancellations) of the catch-runs in which a catch{} really swallowed a CancelledError"
 )
 ASSUMPTIONS = [
     "shield semantics checked: nothing raises inside ignore_cancellation, *including* for a scope entered inside it whose deadline passes or which is cancelled there "
@@ -54,6 +65,8 @@ ASSUMPTIONS = [
     "delays are pairwise incommensurable (sleeps 1.00/2.00, scope delays 0.53/1.57/2.59); ties (two timers within 10 ms) are unspecified in asyncio and excluded",
     "program size: the full grammar has ~2*10^8 programs with <= 5 nodes; the tiers enumerate every program of the stated alphabets and sizes (tier_bounds), not the <= 5 / <= 6 nodes of DESIGN.md",
     "iteration-indexed injections are judged by clauses (i)-(iv) + bookkeeping, not by trace equality (sub-instant placement is loop bookkeeping the statement does not fix)",
+    "catch{P} models cleanup code that intercepts a CancelledError raised by a cancelled scope and keeps awaiting; it never meets an external task.cancel() "
+    "or a TaskGroup abort (no injections, no group in that family): swallowing a foreign cancellation has no specified outcome",
     "only the asyncio backend is exercised (trio is not installed)",
 ]
 _A = {
@@ -62,20 +75,23 @@ _A = {
     "slim5": "sleeps {1,2}, yield_, move_on_after {0.53}, scope {inf}, cancel k in {0,1}",
     "shield5": "sleep {1}, shielded_yield, move_on_after {0}, scope {inf}, cancel k in {0,1}",
     "slim6": "sleep {1}, yield_, move_on_after {0.53}, scope {inf}, cancel(0)",
+    "catch": "sleep {1}, yield_, move_on_after {0,0.53}, scope {inf}, cancel k in {0,1}, shield, catch, no group",
 }
 BOUNDS = {
-    "quick": f"nesting <= 3; ALL programs with <= 4 nodes over [{_A['base']}] + ALL with <= 3 nodes over [{_A['rich']}] + ALL with exactly 5 nodes over [{_A['slim5']}] and over [{_A['shield5']}]",
-    "thorough": f"nesting <= 3; ALL programs with <= 5 nodes over [{_A['base']}] + ALL with <= 4 nodes over [{_A['rich']}] + ALL with exactly 6 nodes over [{_A['slim6']}]",
+    "quick": f"nesting <= 3; ALL programs with <= 4 nodes over [{_A['base']}] + ALL with <= 3 nodes over [{_A['rich']}] + ALL with exactly 5 nodes over [{_A['slim5']}] and over [{_A['shield5']}] + ALL with <= 4 nodes that contain a catch over [{_A['catch']}] (no external cancel for these)",
+    "thorough": f"nesting <= 3; ALL programs with <= 5 nodes over [{_A['base']}] + ALL with <= 4 nodes over [{_A['rich']}] + ALL with exactly 6 nodes over [{_A['slim6']}] + ALL with <= 5 nodes that contain a catch over [{_A['catch']}] (no external cancel for these)",
 }
 
 
 def tier_programs(tier: str):
     """Deterministic enumeration of every program of the tier (families in order, no program twice)."""
-    for _name, kw, lo, hi, seen_kw in TIERS[tier]:
+    for _name, kw, lo, hi, seen_kw, must in TIERS[tier]:
         alpha = Alphabet(**kw)
         seen = Alphabet(**seen_kw) if seen_kw else None
         for prog in alpha.programs(hi):
             if lo > 1 and size(prog) < lo:
+                continue
+            if must is not None and not has_op(prog, (must,)):
                 continue
             if seen is not None and seen.contains(prog):
                 continue
@@ -176,6 +192,8 @@ def judge(prog: tuple, inject: tuple | None, refs: RefSet | None, real: Real, mo
                 fam = "shield" if has_op(prog, ("shield", "syield")) else "plain"
                 if has_op(prog, ("group",)):
                     fam += "+group"
+                if has_op(prog, ("catch",)):
+                    fam = "catch" + ("+" + fam if fam != "plain" else "")
                 found.append((f"trace/{fam}/{sym}", text))
     if kind != "none":
         # clause form (valid for every injection; the only oracle for iteration-indexed ones and for same-instant races)
@@ -215,6 +233,7 @@ def check_program(prog: tuple, res: JobResult, sink: _Sink) -> None:
         return
     if has_op(prog, ("shield",)) and _scope_inside_shield(prog):
         res.count("programs_scope_inside_shield")
+    has_catch = has_op(prog, ("catch",))
 
     def one(inject: tuple | None, refs: RefSet | None, mode: str) -> Real:
         real = Real(prog, inject).run()
@@ -228,6 +247,15 @@ def check_program(prog: tuple, res: JobResult, sink: _Sink) -> None:
                 if len(refs.variants) > 1:
                     res.count("latitude_catch_or_propagate")
         found, oc = judge(prog, inject, refs, real, mode)
+        if has_catch:
+            oc = "catch:" + oc.split(":", 1)[1] + (f"/swallowed={min(real.swallowed, 3)}" if real.swallowed else "/nothing-to-swallow")
+            if real.swallowed:
+                res.count("catch_runs_with_swallowed_cancellation")
+                flags = tuple((e[2], e[3]) for T in real.tasks for e in T.events if e[0] == "exit")
+                res.nontrivial.add(digest(("catch", shape(prog), real.root.outcome if real.root else None, flags, real.swallowed)))
+                if not any("catch{" in x.get("program", "") for x in res.samples if isinstance(x, dict)) and len(res.samples) < 4:
+                    res.samples.append({"program": fmt(prog), "external_cancel": "none (catch-programs run without injections)", "outcome": oc,
+                                        "observed_root_trace": [list(e[:-2]) + [round(e[-1], 4)] for e in real.root.events if e[0] != "start"]})
         res.outcome(oc)
         for key, text in found:
             if key == "INTERNAL":
@@ -244,6 +272,10 @@ def check_program(prog: tuple, res: JobResult, sink: _Sink) -> None:
         return real
 
     real0 = one(None, refs0, "trace")
+    if has_catch:
+        # no external cancel for these: what a program that swallows a foreign task.cancel() must do afterwards is not specified
+        res.count("catch_programs")
+        return
     inst = refs0.main.instants()
     for a, b in zip(inst, inst[1:]):
         x = round((a + b) / 2, 6)
@@ -267,6 +299,9 @@ def _scope_inside_shield(prog: tuple, inside: bool = False) -> bool:
                 return True
         elif s[0] == "shield":
             if _scope_inside_shield(s[1], True):
+                return True
+        elif s[0] == "catch":
+            if _scope_inside_shield(s[1], inside):
                 return True
         elif s[0] == "group":
             if _scope_inside_shield(s[1], False) or _scope_inside_shield(s[2], inside):
